@@ -2,7 +2,7 @@
 From Coq Require Import List ZArith Permutation.
 From Coq Require Import Sorted.
 From Herc Require Import Plan.Syntax Plan.Exec Plan.Graph Plan.Checker Plan.Spec Plan.GC Plan.Hibernate Plan.Lifecycle
-  Plan.LifecycleProofs Plan.GCProofs Plan.HibernateProofs Plan.LifecyclePlain Plan.RunLifecycle Plan.RunLifecycleSound.
+  Plan.LifecycleProofs Plan.GCProofs Plan.HibernateProofs Plan.LifecyclePlain Plan.RunLifecycle Plan.RunLifecycleSound Plan.RunLifecycleComplete.
 Import ListNotations.
 Local Open Scope nat_scope.
 
@@ -165,6 +165,13 @@ Theorem C04_run_booted_before_use : forall (single : bool) (n : nat) (log : list
 Proof. intros single n log H. exact (run_spec_booted_before_use single n log (run_lifecycle_sound single n log H)). Qed.
 Print Assumptions C04_run_booted_before_use.
 
+(* the oracle is exact: [run_spec single n log] (RunLifecycle.v) is, by definition, the conclusion of
+   C04_run_lifecycle_sound; every log that satisfies it is accepted, so a rejected log really violates the statement *)
+Theorem C04_run_lifecycle_complete : forall (single : bool) (n : nat) (log : list event),
+  run_spec single n log -> run_okb single n log = true.
+Proof. exact run_lifecycle_complete. Qed.
+Print Assumptions C04_run_lifecycle_complete.
+
 (* non-vacuity: the log of a run with a four-parent octopus merge under hibernation (instance 0 = the deployed item,
    1 = the root clone, 2..4 = the forked branches; a boot action that covers the branches 0, 2, 3 precedes the merge)
    is accepted; the same log with only the first branch of that boot action really booted (the seeded change C04-s2),
@@ -173,7 +180,7 @@ Definition octopus_log (boots : list event) : list event :=
   [ERoot 0; EFork 0 [1]; EConsume 0 0; EFork 0 [2; 3; 4]; EHibernate 3; EHibernate 2; EHibernate 0;
    EConsume 4 1; EHibernate 4; EBoot 3; EConsume 3 2; EHibernate 3; EBoot 2; EConsume 2 3; EHibernate 2;
    EBoot 0; EConsume 0 4; EHibernate 0;
-   EBoot 2; EConsume 2 5; EHibernate 2; EBoot 3; EConsume 3 5; EHibernate 3; EBoot 4; EConsume 4 5; EConsume 0 5]
+   EBoot 2; EConsume 2 5; EHibernate 2; EBoot 3; EConsume 3 5; EHibernate 3; EBoot 4; EConsume 4 5; EBoot 0; EConsume 0 5]
   ++ boots ++
   [EMerge 0 [2; 3; 4]; EConsume 0 6; EDispose 0; EFinalize 0].
 Example C04_run_oracle_accepts_octopus :
